@@ -444,7 +444,7 @@ pub fn kind_name(t: &Ty, v: &DV) -> &'static str {
     }
 }
 
-pub fn arb_ty(depth: u32) -> impl Strategy<Value = Ty> {
+pub fn arb_ty(depth: u32) -> impl Strategy<Value = Ty> + Clone + use<> {
     let leaf = prop_oneof![Just(Ty::Unit), Just(Ty::Bool), Just(Ty::Int), Just(Ty::Str)];
     leaf.prop_recursive(depth, 12, 3, |inner| {
         prop_oneof![
@@ -520,7 +520,7 @@ pub fn arb_val(t: &Ty) -> BoxedStrategy<DV> {
 }
 
 /// (Ty, DV) pairs
-pub fn arb_typed(depth: u32) -> impl Strategy<Value = (Ty, DV)> {
+pub fn arb_typed(depth: u32) -> impl Strategy<Value = (Ty, DV)> + Clone + use<> {
     arb_ty(depth).prop_flat_map(|t| {
         let v = arb_val(&t);
         (Just(t), v)
@@ -751,4 +751,127 @@ impl<'de> serde::Deserialize<'de> for Dyn {
         let ty = DYN_TY.with(|c| c.borrow().clone()).expect("Dyn used outside with_ty");
         D(&ty).deserialize(d).map(Dyn)
     }
+}
+
+
+// ---------------------------------------------------------------------------------------------
+// byte-driven construction (libFuzzer targets): the families of `arb_ty` / `arb_val`, decoded
+// from an `engine::Bytes` cursor. Total and bounded.
+use crate::engine::Bytes;
+
+pub fn ty_from_bytes(b: &mut Bytes, depth: u32) -> Ty {
+    let leaf = |b: &mut Bytes| match b.below(4) {
+        0 => Ty::Unit,
+        1 => Ty::Bool,
+        2 => Ty::Int,
+        _ => Ty::Str,
+    };
+    if depth == 0 || b.is_empty() {
+        return leaf(b);
+    }
+    let d = depth - 1;
+    match b.below(11) {
+        0..=2 => leaf(b),
+        3 => {
+            let t = ty_from_bytes(b, d);
+            if nullable(&t) { Ty::Opt(Box::new(Ty::Int)) } else { Ty::Opt(Box::new(t)) }
+        }
+        4 => Ty::Seq(Box::new(ty_from_bytes(b, d))),
+        5 => {
+            let n = 1 + b.below(2);
+            Ty::Tuple((0..n).map(|_| ty_from_bytes(b, d)).collect())
+        }
+        6 => {
+            let n = 1 + b.below(2);
+            Ty::TS((0..n).map(|_| ty_from_bytes(b, d)).collect())
+        }
+        7 => {
+            let k = match b.below(6) {
+                0..=2 => Ty::Str,
+                3 => Ty::Int,
+                4 => Ty::Bool,
+                _ => ty_from_bytes(b, d),
+            };
+            Ty::Map(Box::new(k), Box::new(ty_from_bytes(b, d)))
+        }
+        8 => {
+            let n = b.below(4);
+            let f = (0..n).map(|_| ty_from_bytes(b, d)).collect();
+            Ty::Struct(f, b.bool())
+        }
+        9 => Ty::NT(Box::new(ty_from_bytes(b, d))),
+        _ => {
+            let n = 1 + b.below(3);
+            Ty::Enum(
+                (0..n)
+                    .map(|_| match b.below(4) {
+                        0 => VK::Unit,
+                        1 => VK::New(Box::new(ty_from_bytes(b, d))),
+                        2 => {
+                            let m = 1 + b.below(2);
+                            VK::Tup((0..m).map(|_| ty_from_bytes(b, d)).collect())
+                        }
+                        _ => {
+                            let m = b.below(3);
+                            VK::St((0..m).map(|_| ty_from_bytes(b, d)).collect())
+                        }
+                    })
+                    .collect(),
+            )
+        }
+    }
+}
+
+/// a value of type `t`; strings from `pool`, integers from `lo..hi`
+pub fn val_from_bytes_with(b: &mut Bytes, t: &Ty, pool: &[&str], lo: i64, hi: i64) -> DV {
+    let go = |b: &mut Bytes, t: &Ty| val_from_bytes_with(b, t, pool, lo, hi);
+    match t {
+        Ty::Unit => DV::Unit,
+        Ty::Bool => DV::Bool(b.bool()),
+        Ty::Int => DV::Int(lo + b.below((hi - lo) as usize) as i64),
+        Ty::Str => DV::Str(b.pick(pool).to_string()),
+        Ty::Opt(t) => {
+            if b.bool() { DV::Some(Box::new(go(b, t))) } else { DV::None }
+        }
+        Ty::Seq(t) => {
+            let n = b.below(3);
+            DV::Seq((0..n).map(|_| go(b, t)).collect())
+        }
+        Ty::Tuple(ts) | Ty::TS(ts) => DV::Seq(ts.iter().map(|t| go(b, t)).collect()),
+        Ty::NT(t) => DV::NT(Box::new(go(b, t))),
+        Ty::Map(k, v) => {
+            fn norm(k: &DV) -> DV {
+                match k {
+                    DV::None | DV::Unit => DV::Str("null".into()),
+                    DV::Str(s) if s.is_empty() || s == "~" || s.eq_ignore_ascii_case("null") => DV::Str("null".into()),
+                    DV::Some(x) | DV::NT(x) => norm(x),
+                    DV::Seq(x) => DV::Seq(x.iter().map(norm).collect()),
+                    other => other.clone(),
+                }
+            }
+            let n = b.below(3);
+            let mut out: Vec<(DV, DV)> = vec![];
+            for _ in 0..n {
+                let (kk, vv) = (go(b, k), go(b, v));
+                if !out.iter().any(|(k2, _)| norm(k2) == norm(&kk)) {
+                    out.push((kk, vv));
+                }
+            }
+            DV::Map(out)
+        }
+        Ty::Struct(ts, _) => DV::Struct(ts.iter().map(|t| go(b, t)).collect()),
+        Ty::Enum(vks) => {
+            let i = b.below(vks.len());
+            match &vks[i] {
+                VK::Unit => DV::Var(i, vec![]),
+                VK::New(t) => DV::Var(i, vec![go(b, t)]),
+                VK::Tup(ts) | VK::St(ts) => DV::Var(i, ts.iter().map(|t| go(b, t)).collect()),
+            }
+        }
+    }
+}
+
+/// the value family of `arb_val`
+pub fn val_from_bytes(b: &mut Bytes, t: &Ty) -> DV {
+    val_from_bytes_with(b, t, &STR_POOL, -3, 100)
 }
